@@ -32,11 +32,11 @@ def _observers():
 
 def run(ctx):
     obs = _observers() if ctx.extra.get('model_available', True) else []
-    session.run_sessions(ctx, ctx.scale(250, 6000), ctx.scale(14, 40), ['frame'], observers=obs)
+    session.run_sessions(ctx, ctx.scale(250, 6000), ctx.scale(14, 40), ['frame', 'reads', 'fresh'], observers=obs)
     if obs:
         import corr_repeated
         corr_repeated.grid(ctx, obs[0])   # exhaustive index/slice grid through the same observer (one driver batch)
-    session.run_churn(ctx, ctx.scale(100, 1500), ctx.scale(50, 80), ['frame'], observers=obs)   # small blocks: split/merge/redistribution underneath
+    session.run_churn(ctx, ctx.scale(100, 1500), ctx.scale(50, 80), ['frame', 'reads'], observers=obs)   # small blocks: split/merge/redistribution underneath
     session.finish_observers(ctx, obs)
     slicegrid.run(ctx, ['frame'])
     import slotgrid
@@ -44,8 +44,8 @@ def run(ctx):
 
 
 def search(ctx, hints):
-    session.run_sessions(ctx, ctx.scale(2500, 10000), 30, ['frame'])
+    session.run_sessions(ctx, ctx.scale(2500, 10000), 30, ['frame', 'reads', 'fresh'])
 
 
 def replay(ctx, data):
-    return not session.replay(data, ['frame'])
+    return not session.replay(data, ['frame', 'reads', 'fresh'])
